@@ -35,6 +35,8 @@ SPECS = {
         dict(config=[dict(tspan=[1, 53], period="week", vspan=[0.5, 2], zspan=[5, 100]),
                      dict(tspan=[1, 1], period="dayofyear", vspan=[2, 5])]),
         dict(config=[dict(tspan=[1, 4], period="quarter", vspan=[0.5, 2])], _object=True),
+        dict(config=[dict(tspan=[1, 12], period="month", vspan=[0.5, 2]), dict(tspan=["2019-12-01", "2020-12-31"], vspan=[2, 5], zspan=[0, 100]),
+                     dict(tspan=[1, 53], period="week", vspan=[0, 1])]),
     ]),
     "spike_test": dict(mod="qartod", kind="series", needs=(), none_ok=True, cfgs=[
         dict(),
